@@ -32,6 +32,9 @@ import TnVerif.Model.RectMaxvol
 import TnVerif.Model.RoundTucker
 import TnVerif.Model.SqueezeOps
 import TnVerif.Model.Logic
+import TnVerif.Model.BatchScalar
+import TnVerif.Model.DimDistMask
+import TnVerif.Model.OrthFull
 /-
   Line-protocol driver (DESIGN §2.6).  One request per line on stdin, one answer per line on
   stdout.  Tokens are separated by blanks; numbers are integers or `p/q`.
@@ -297,6 +300,7 @@ def pWhich : PM (Option (List Nat)) := do
   else throw "eof"
 
 def showBool (b : Bool) : String := if b then "ok B 1" else "ok B 0"
+
 
 def run (cmd : String) : PM String := do
   match cmd with
@@ -935,6 +939,75 @@ def run (cmd : String) : PM String := do
           let t ← pTensor; let u ← pTensor
           return showBool (t.memo.lequiv (logicThr TN.Generated.floats_logic_is_contradiction) u.memo)
       | _ => throw s!"unknown predicate {name}"
+  | "dimdist_mask" => do
+      -- dimdist_mask <order> <ρ> <sgn> <ρ2> <sgn2> <N> (<len> w.. | -)*N <tensor> <mask>
+      let order ← pNat
+      let ρ ← pQ; let sg ← pQ
+      let ρ2 ← pQ; let sg2 ← pQ
+      let n ← pNat
+      let mut ws : Array (Option (Nat → Q)) := #[]
+      for _ in [0:n] do
+        let k ← next
+        if k == "-" then ws := ws.push none
+        else
+          match k.toNat? with
+          | none => throw s!"nat or - expected: {k}"
+          | some len =>
+            let a ← pArr len
+            ws := ws.push (some (fun i => a.getD i 0))
+      let t ← pTensor
+      let mask ← pTensor
+      match t.memo.dimensionDistributionMask mask.memo order ws.toList ρ sg ρ2 sg2 with
+      | .error e => return "err " ++ showErr e
+      | .ok l => return "ok L " ++ showQs l
+  -- batch tensors (Model/BatchScalar.lean): a batch is `<B>` followed by B tensors (the batch elements, same format);
+  -- the answer is `ok <B> <tensor_0> … <tensor_{B-1}>`
+  | "smul_b" => do
+      let ρ ← pQ; let sg ← pQ; let nb ← pNat
+      let mut xs : Array (Tensor Q) := #[]
+      for _ in [0:nb] do xs := xs.push (← pTensor)
+      let r := smulB ρ sg xs.toList
+      return s!"ok {r.length}" ++ String.join (r.map fun t => " " ++ showTensor t)
+  | "sadd_b" => do
+      let c ← pQ; let nb ← pNat
+      let mut xs : Array (Tensor Q) := #[]
+      for _ in [0:nb] do xs := xs.push (← pTensor)
+      let r := saddB c xs.toList
+      return s!"ok {r.length}" ++ String.join (r.map fun t => " " ++ showTensor t)
+  | "neg_b" => do
+      let nb ← pNat
+      let mut xs : Array (Tensor Q) := #[]
+      for _ in [0:nb] do xs := xs.push (← pTensor)
+      let r := negB xs.toList
+      return s!"ok {r.length}" ++ String.join (r.map fun t => " " ++ showTensor t)
+  | "ssub_b" => do
+      let c ← pQ; let nb ← pNat
+      let mut xs : Array (Tensor Q) := #[]
+      for _ in [0:nb] do xs := xs.push (← pTensor)
+      let r := ssubB c xs.toList
+      return s!"ok {r.length}" ++ String.join (r.map fun t => " " ++ showTensor t)
+  | "rsub_b" => do
+      let c ← pQ; let nb ← pNat
+      let mut xs : Array (Tensor Q) := #[]
+      for _ in [0:nb] do xs := xs.push (← pTensor)
+      let r := rsubB c xs.toList
+      return s!"ok {r.length}" ++ String.join (r.map fun t => " " ++ showTensor t)
+  | "orth_full" => do
+      -- orth_full <mu:int> <nL> <nR> then nL+nR answers `<hasFac> [M qu M ru] M q M r` in call order (left steps, then right steps), then T
+      let mu ← pInt
+      let nL ← pNat; let nR ← pNat
+      let mut asL : Array (OrthAns Q) := #[]
+      let mut asR : Array (OrthAns Q) := #[]
+      for k in [0:nL + nR] do
+        let hasFac ← pNat
+        let fac ← if hasFac != 0 then do let qu ← pMat; let ru ← pMat; pure (some (qu, ru)) else pure none
+        let qm ← pMat; let rm ← pMat
+        let A : OrthAns Q := { fac := fac, Q := qm, Rm := rm }
+        if k < nL then asL := asL.push A else asR := asR.push A
+      let t ← pTensor
+      match t.orthFullInt mu asL.toList asR.toList with
+      | some r => return "ok " ++ showTensor r.memo
+      | none => return "err range"
   | _ => throw s!"unknown command {cmd}"
 
 def handle (line : String) : String :=
